@@ -291,6 +291,54 @@ fn gen_case(seed: u64, tier: Tier) -> Case {
 			});
 		}
 	}
+	// second kind of prelude (half of the scenes without effects and streaming sounds): commands on a looping
+	// static sound - a volume tween, and an instant pause and resume while it runs - and then rest.
+	// While the tween runs the worlds differ (it advances chunk by chunk); once it has surely ended
+	// the sound has the same position and exactly the target gain everywhere
+	// (only in scenes without effects: an effect with memory - a filter, a compressor, a reverb -
+	// legitimately remembers that the worlds differed while the tween ran)
+	let no_effects = cfg.main_effects.is_empty()
+		&& setup.iter().all(|o| match o {
+			Op::AddTrack { spec, spatial, .. } => spec.effects.is_empty() && spatial.is_none(),
+			Op::AddSend { effects, .. } => effects.is_empty(),
+			_ => true,
+		});
+	if !overflow && !any_streaming && no_effects && g.rng.chance(0.5) {
+		let mut play_no = 0usize;
+		let mut chosen = None;
+		for op in setup.iter_mut() {
+			match op {
+				Op::PlayStatic { settings, .. } => {
+					settings.loop_region = Some(RegionSpec { start: Pos::Samples(0), end: None });
+					chosen = Some(play_no);
+					break;
+				}
+				Op::PlayStreaming { .. } => play_no += 1,
+				_ => {}
+			}
+		}
+		if let Some(sound) = chosen {
+			let d = *g.rng.pick(&[0.002, 0.01, 0.04]);
+			let instant = TweenSpec { start: StartSpec::Immediate, dur: 0.0, easing: EasingSpec::Linear };
+			setup.push(Op::Sound {
+				sound,
+				cmd: SoundCmd::SetVolume(Val::Fixed(Db(g.rng.frange(-20.0, 0.0) as f32)), TweenSpec { start: StartSpec::Immediate, dur: d, easing: EasingSpec::Linear }),
+			});
+			setup.push(Op::Callback { frames: g.rng.urange(1, 200), channels });
+			if g.rng.chance(0.7) {
+				setup.push(Op::Sound { sound, cmd: SoundCmd::Pause(instant) });
+				setup.push(Op::Callback { frames: g.rng.urange(1, 200), channels });
+				setup.push(Op::Sound { sound, cmd: SoundCmd::Resume(instant) });
+			}
+			// (in pieces that a device could ask for)
+			let mut left = (d * sample_rate as f64) as usize + 2 * 4096 + 16;
+			while left > 0 {
+				let c = left.min(3000);
+				setup.push(Op::Callback { frames: c, channels });
+				left -= c;
+			}
+		}
+	}
 	// three worlds: different internal buffer sizes and callback partitions
 	let mut worlds = Vec::new();
 	for w in 0..3 {
@@ -490,7 +538,7 @@ impl Check for C11 {
 		CheckInfo {
 			id: "C11",
 			level: "exploration",
-			rule: "each case = a scene (main/sub/spatial/send tracks with every built-in effect at fixed parameters incl. effects nested in a delay's feedback loop, 1..5 static or streaming sounds with any rate, loop, reverse, pan, immediate start; a quarter of the scenes with tracks begin with a prelude in which some tracks are paused and resumed with fades before anything plays, and play once every world has them Playing again; 4% are overflow scenes - one sound with exactly silent frames in between, copied frame by frame under a main-track gain of +1000 dB, so that the mix holds infinities and isolated non-finite frames: every sample is full scale with the source's sign, or silence) rendered in three worlds that differ only in internal buffer size (1..4096) and callback partition (1-frame, equal to the buffer, random, non-multiples, zero-frame, one huge callback); non-trivial = non-silent output; distinct = hash of (recursive?, scene size, buffer sizes, partition classes, channels)",
+			rule: "each case = a scene (main/sub/spatial/send tracks with every built-in effect at fixed parameters incl. effects nested in a delay's feedback loop, 1..5 static or streaming sounds with any rate, loop, reverse, pan, immediate start; a quarter of the scenes with tracks begin with a prelude in which some tracks are paused and resumed with fades before anything plays, and play once every world has them Playing again; half of the scenes without effects and streaming sounds begin with commands on a looping static sound (a volume tween, an instant pause and resume while it runs) and are compared once the tween has surely ended; 4% are overflow scenes - one sound with exactly silent frames in between, copied frame by frame under a main-track gain of +1000 dB, so that the mix holds infinities and isolated non-finite frames: every sample is full scale with the source's sign, or silence) rendered in three worlds that differ only in internal buffer size (1..4096) and callback partition (1-frame, equal to the buffer, random, non-multiples, zero-frame, one huge callback); non-trivial = non-silent output; distinct = hash of (recursive?, scene size, buffer sizes, partition classes, channels)",
 			assumptions: vec![
 				"parameters are constant (no modulators, tweens, delayed or clock starts, no commands after setup), as the property requires".into(),
 				"streaming decoders are run until they sleep or end before every callback in every world (decoder keeps ahead)".into(),
@@ -516,8 +564,14 @@ impl Check for C11 {
 		run_case(&case)
 	}
 	fn shrink(&self, case: &Value) -> Vec<Value> {
-		let mut out = shrink_ops_array(case, "setup");
 		let c: Case = serde_json::from_value(case.clone()).unwrap();
+		// (a prelude is only valid as a whole: commands, then the callbacks that let them come to rest)
+		let prelude_ops = |c: &Case| c.setup.iter().filter(|o| matches!(o, Op::Callback { .. } | Op::Track { .. } | Op::Sound { .. })).count();
+		let keep = prelude_ops(&c);
+		let mut out: Vec<Value> = shrink_ops_array(case, "setup")
+			.into_iter()
+			.filter(|v| serde_json::from_value::<Case>(v.clone()).map(|c2| prelude_ops(&c2) == keep).unwrap_or(false))
+			.collect();
 		if c.worlds.len() > 2 {
 			for drop in 1..c.worlds.len() {
 				let mut c2 = c.clone();
